@@ -20,28 +20,33 @@ pub open spec fn mscale(a: Map<Commodity, real>, k: real) -> Map<Commodity, real
 }
 pub open spec fn all_zero(m: Map<Commodity, real>) -> bool { forall|c: Commodity| m.contains_key(c) ==> m[c] == 0real }
 
-impl SingleAmount {
-    pub open spec fn v(self) -> real { self.value.val() }
-    pub open spec fn as_map(self) -> Map<Commodity, real> { Map::empty().insert(self.commodity, self.value.val()) }
-}
 impl PostingAmount {
     pub open spec fn as_map(self) -> Map<Commodity, real> {
         match self { PostingAmount::Zero => Map::empty(), PostingAmount::Single(s) => s.as_map() }
     }
 }
+pub mod amount_lemmas {
+    use super::*;
+impl SingleAmount {
+    pub open spec fn v(self) -> real { self.value.val() }
+    pub open spec fn as_map(self) -> Map<Commodity, real> { Map::empty().insert(self.commodity, self.value.val()) }
+}
 impl View for Amount {
     type V = Map<Commodity, real>;
-    closed spec fn view(&self) -> Map<Commodity, real> { self.values@.map_values(|d: Decimal| d.val()) }
+    open spec fn view(&self) -> Map<Commodity, real> { self.values@.map_values(|d: Decimal| d.val()) }
 }
 impl Amount {
     // exactly one commodity: that entry
-    pub closed spec fn single_entry(&self) -> SingleAmount
+    pub open spec fn single_entry(&self) -> SingleAmount
     {
         let c = self.values@.dom().choose();
         SingleAmount { value: self.values@[c], commodity: c }
     }
-    pub closed spec fn ncomm(&self) -> nat { self.values@.len() }
-    proof fn lemma_view(&self)
+    pub open spec fn ncomm(&self) -> nat { self.values@.len() }
+}
+
+    impl Amount {
+    pub proof fn lemma_view(&self)
         ensures
             self@.dom() == self.values@.dom(),
             self@.dom().finite(),
@@ -60,6 +65,22 @@ impl Amount {
             assert(self.values@.dom().remove(c).len() == 0);
             assert(self.values@.dom() =~= set![c]);
         }
+    }
+    }
+    // what `the single entry` of a one-commodity amount is, in terms of the public view
+    pub broadcast proof fn lemma_single_entry(a: Amount)
+        requires a.ncomm() == 1,
+        ensures
+            #![trigger a.single_entry()]
+            a@ =~= Map::<Commodity, real>::empty().insert(a.single_entry().commodity, a.single_entry().v()),
+            a@.dom().len() == 1,
+    {
+        a.lemma_view();
+    }
+    pub broadcast proof fn lemma_ncomm(a: Amount)
+        ensures #![trigger a.ncomm()] a.ncomm() == a@.dom().len(), a@.dom().finite(),
+    {
+        a.lemma_view();
     }
 }
 
